@@ -19,7 +19,7 @@ CHECK = "check"
 def coq_op(o):
     k, a = o[0], o[1:]
     z = F.zlit
-    return {"N": lambda: f"ZN {z(a[0])}", "E": lambda: f"ZE {z(a[0])} {z(a[1])}", "R": lambda: f"ZR {z(a[0])}",
+    return {"N": lambda: f"ZN {z(a[0])} {z(a[1])}", "E": lambda: f"ZE {z(a[0])} {z(a[1])}", "R": lambda: f"ZR {z(a[0])}",
             "P": lambda: f"ZP {z(a[0])}", "B": lambda: "ZB", "Q": lambda: "ZQ"}[k]()
 
 
@@ -40,17 +40,20 @@ def build(item, ops=None):
 class Shape:
     def __init__(self):
         self.live = []      # per slot: bool
+        self.nbuf = []      # per slot: number of output buffers of the node living there
         self.free = []
         self.edges = []
         self.vacated = False
 
-    def add_node(self):
+    def add_node(self, nbuf=1):
         if self.free:
             i = self.free.pop(0)
             self.live[i] = True
+            self.nbuf[i] = nbuf
         else:
             i = len(self.live)
             self.live.append(True)
+            self.nbuf.append(nbuf)
         return i
 
     def add_edge(self, a, b):
@@ -92,6 +95,14 @@ class Shape:
             f.add("parallel_edge")
         if any(not l for l in self.live):
             f.add("vacancy")
+        if any(self.nbuf[u] == 0 for u in U):
+            f.add("zero_buffer_node_upstream")
+        if self.nbuf[out] == 0:
+            f.add("zero_buffer_output_node")
+        if any(self.nbuf[a] == 0 for a, b in sub if a != b):
+            f.add("input_without_buffers")
+        if any(self.nbuf[u] == 2 for u in U):
+            f.add("two_buffer_node_upstream")
         outdeg = {}
         for a, b in set(sub):
             if a != b:
@@ -135,7 +146,7 @@ def replay_shape(ops):
     sh, feats = Shape(), []
     for o in ops:
         if o[0] == "N":
-            sh.add_node()
+            sh.add_node(o[2])
         elif o[0] == "E":
             if o[1] < len(sh.live) and o[2] < len(sh.live) and sh.live[o[1]] and sh.live[o[2]]:
                 sh.add_edge(o[1], o[2])
@@ -151,28 +162,45 @@ def replay_shape(ops):
     return sh, feats
 
 
-NONTRIVIAL = {"self_loop", "parallel_edge", "vacancy", "two_paths", "cycle"}
+NONTRIVIAL = {"self_loop", "parallel_edge", "vacancy", "two_paths", "cycle", "zero_buffer_node_upstream"}
 
 
-def gen_exhaustive(tier):
+def pick_nbuf(r):
+    """1 node in 6 has no output buffer (meter/recorder style), 1 in 6 has two"""
+    x = r.below(6)
+    return 0 if x == 0 else 2 if x == 1 else 1
+
+
+def gen_exhaustive(rng, tier):
     """all directed multigraphs (edge SEQUENCES, the insertion order matters) with <= 3 nodes and
     <= 4 edges, every output node (consecutively on one processor, then each from a fresh one for
     the graphs with <= 3 edges), Graph and StableGraph; StableGraph also with one vacant slot."""
     items = []
+    rb = rng.fork("exh_nbuf")
     for nn in (1, 2, 3):
         pairs = [(a, b) for a in range(nn) for b in range(nn)]
         for ne in range(0, 5):
             for seq in itertools.product(pairs, repeat=ne):
-                base = [["N", 0]] * nn + [["E", a, b] for a, b in seq]
+                edges = [["E", a, b] for a, b in seq]
                 allp = []
                 for o in range(nn):
                     allp += [["P", o], ["B"]]
                 for kind in ("G", "S"):
+                    # buffer counts drawn per case (1 node in 6 without buffers, 1 in 6 with two)
+                    base = [["N", 0, pick_nbuf(rb)] for _ in range(nn)] + edges
                     items.append(build(dict(kind=kind, fam="exh", ops=base + allp + [["Q"]])))
                 if ne <= 2 or (tier == "thorough" and ne <= 3):
+                    base = [["N", 0, 1]] * nn + edges
                     for o in range(1, nn):
                         for kind in ("G", "S"):
                             items.append(build(dict(kind=kind, fam="exh1", ops=base + [["P", o], ["B"]])))
+                # every position of a node without buffers (the others alternate 1 / 2 buffers),
+                # every output node (also the one without buffers), from a fresh processor each
+                if ne <= 2 or (tier == "thorough" and ne <= 3):
+                    for z in range(nn):
+                        base = [["N", 0, 0 if j == z else 1 + (j + ne) % 2] for j in range(nn)] + edges
+                        for kind in ("G", "S"):
+                            items.append(build(dict(kind=kind, fam="exh0", ops=base + allp + [["Q"]])))
     # StableGraph with a vacancy: nn live nodes + one removed slot at each position, <= 3 edges
     for nn in (1, 2, 3):
         for vac in range(nn + 1):
@@ -182,7 +210,7 @@ def gen_exhaustive(tier):
                 for seq in itertools.product(pairs, repeat=ne):
                     # half of the edges before the removal (one of them touching the removed node)
                     pre = [["E", vac, livei[0]], ["E", livei[-1], vac], ["E", vac, vac]]
-                    ops = [["N", 0]] * (nn + 1) + pre + [["E", a, b] for a, b in seq[:ne // 2]] + [["R", vac]] \
+                    ops = [["N", 0, pick_nbuf(rb)] for _ in range(nn + 1)] + pre + [["E", a, b] for a, b in seq[:ne // 2]] + [["R", vac]] \
                         + [["E", a, b] for a, b in seq[ne // 2:]]
                     for o in livei:
                         ops += [["P", o], ["B"]]
@@ -204,8 +232,9 @@ def gen_random(rng, tier):
         sh = Shape()
         ops = []
         for _ in range(nn):
-            ops.append(["N", 1 if r.chance(1, 3) else 0])
-            sh.add_node()
+            nb = pick_nbuf(r)
+            ops.append(["N", 1 if r.chance(1, 3) else 0, nb])
+            sh.add_node(nb)
         perm = list(range(nn))
         for i in range(nn - 1, 0, -1):          # a random topological order for the DAG family
             j = r.below(i + 1)
@@ -224,8 +253,9 @@ def gen_random(rng, tier):
                     ops.append(["R", a])
                     sh.remove(a)
                     if readd and r.chance(1, 2):
-                        ops.append(["N", 1 if r.chance(1, 3) else 0])
-                        sh.add_node()
+                        nb = pick_nbuf(r)
+                        ops.append(["N", 1 if r.chance(1, 3) else 0, nb])
+                        sh.add_node(nb)
             if e == ne:
                 break
             lv = sh.live_nodes()
@@ -290,10 +320,10 @@ def main(rep, tier, seed):
         rep.violation("harness_build", {"kind": "harness does not build against /repo", "log": blog[-4000:]}, no_input=True)
         return finish(rep, info, 0, 0, {}, [])
     corpus = load_corpus()
-    exh = gen_exhaustive(tier)
+    exh = gen_exhaustive(rng, tier)
     rnd = gen_random(rng, tier)
     items = corpus + exh + rnd
-    outl, bad, errors = F.correspond(binpath, items, HEADER, CHECK, "c09")
+    outl, bad, errors = F.correspond(binpath, items, HEADER, CHECK, "c09", per_file=400)
     for name, msg in errors:
         rep.violation("correspondence_error_" + name.replace("/", "_"), {"kind": "correspondence could not be evaluated", "where": name, "log": msg}, no_input=True)
     feat_hist, fam_hist, size_hist = {}, {}, {}
@@ -346,9 +376,9 @@ def finish(rep, info, n, nontriv, dist, samples, bad=()):
                                            "modelled, not verified: petgraph 0.5.1 Graph/StableGraph containers (adjacency lists as an edge list read newest-first, vacancies, free list, node_bound), FixedBitSet as a set plus a length, the DfsPostOrder loop transcribed from visit/traversal.rs:199-220; raw-pointer Inputs as the neighbour's buffers at call time"],
         "theorems": th, "axioms_reported": info.get("axioms", []),
         "evaluations": n, "distinct_nontrivial": nontriv,
-        "rule": "exhaustive: every edge sequence over <= 3 nodes with <= 4 edges (self-loops, doubled edges) x every output node, Graph and StableGraph, plus StableGraph with one vacant slot at every position; random: graphs to 40 nodes / 120 edges, DAG and cyclic, 0-5 removed nodes (slots re-used by later add_node), three consecutive process calls on one Processor, occasional invalid output node; non-trivial = some process call whose upstream subgraph has a cycle, a parallel edge, a self-loop or a node with two paths to the output, or whose graph has a vacancy",
+        "rule": "exhaustive: every edge sequence over <= 3 nodes with <= 4 edges (self-loops, doubled edges) x every output node, Graph and StableGraph, plus StableGraph with one vacant slot at every position, plus (<= 2 edges quick, <= 3 thorough) a node WITHOUT output buffers at every position (also as the output node); nodes have 0, 1 or 2 output buffers (1 in 6 none, 1 in 6 two) in every family; random: graphs to 40 nodes / 120 edges, DAG and cyclic, 0-5 removed nodes (slots re-used by later add_node), three consecutive process calls on one Processor, occasional invalid output node; non-trivial = some process call whose upstream subgraph has a cycle, a parallel edge, a self-loop or a node with two paths to the output, or whose graph has a vacancy, or whose upstream subgraph contains a node without buffers",
         "samples": samples, "input_distribution": dist, "disagreements": len(bad),
-        "explanation": "theorems: for all multigraphs and output nodes (see props/C09.v); tie: the model's executable definitions run by coqc on the same scripts as the real crate; invocation order, input identities in order, values seen, final buffers, call counts, sources and sinks compared exactly",
+        "explanation": "theorems: for all multigraphs and output nodes (see props/C09.v); tie: the model's executable definitions run by coqc on the same scripts as the real crate; invocation order (logged inside Node::process), number of buffers each input shows, input identities in order, values seen, final buffers, call counts, buffer counts, sources and sinks compared exactly",
     }
     return rep.finish("proof", cov, ["petgraph's containers are modelled (edge order, vacancies, free list), not verified",
                                     "node identities are read from a sentinel each instrumented node keeps in its buffer; usize as unbounded nat"])
